@@ -32,6 +32,8 @@ DESC_DEFS = {
     "z": ("c17/nested/z", [("string", "tag"), ("varint", "seq"), ("record", "inner"), ("record[]", "more")]),
     # shape h carries the data fields that path templates refer to ({record.host}, {record.n})
     "h": ("c17/h", [("string", "tag"), ("varint", "seq"), ("string", "host"), ("varint", "n")]),
+    # shape t carries the `ts` field the legacy RecordDateSplitter files records by
+    "t": ("c17/t", [("string", "tag"), ("varint", "seq"), ("datetime", "ts")]),
     # members of grouped records: shape g = GROUP[a/one, b/two], shape G = GROUP[a/uno, b/duo]: the same group name and
     # the same flat field list, different member types
     "a/one": ("a/one", [("string", "tag"), ("varint", "seq")]),
@@ -98,8 +100,8 @@ def _flat(rng, i, prefix="T"):
 def make_record(rng, i, shape, generated=None, extra=None):
     if shape == "x":
         r = _flat(rng, i)
-    elif shape == "h":
-        r = descriptor("h")(tag=_tag(rng, i), seq=i, **(extra or {}))
+    elif shape in ("h", "t"):
+        r = descriptor(shape)(tag=_tag(rng, i), seq=i, **(extra or {}))
     elif shape in "gG":
         from flow.record import GroupedRecord
 
